@@ -4,9 +4,11 @@ import (
 	"crypto/ecdsa"
 	"crypto/sha256"
 	"fmt"
+	"io"
 
 	bkeys "github.com/mosaicnetworks/babble/src/crypto/keys"
 	"github.com/mosaicnetworks/babble/src/peers"
+	"github.com/sirupsen/logrus"
 )
 
 // detKey derives a private key deterministically from (seed, label, i), so
@@ -35,4 +37,15 @@ func clonePeers(ps []*peers.Peer) []*peers.Peer {
 		res = append(res, peers.NewPeer(p.PubKeyHex, p.NetAddr, p.Moniker))
 	}
 	return res
+}
+
+// SimKey wraps a private key.
+type SimKey struct{ K *ecdsa.PrivateKey }
+
+// quietLogger returns a logger that drops everything.
+func quietLogger() *logrus.Entry {
+	l := logrus.New()
+	l.Level = logrus.PanicLevel
+	l.Out = io.Discard
+	return logrus.NewEntry(l)
 }
